@@ -349,10 +349,10 @@ def exec_argparse(shape_id, opts, active, p=None, d=None, s=None, b=None):
 
 TOL["KF-C06-code-default-as-str"] = lambda k, w, c, ir, o: k in ("function", "method", "class") and c == "code-default-as-str"
 
-FN_SHAPES = ["p1_int", "p1_int_d", "p1_str_s", "p1_bool_b", "p1_float", "p1_optint_none", "p1_literal", "p1_list", "p1_dotted",
+FN_SHAPES = ["p1_optint_d", "p1_optbool_f", "p1_optfloat_z", "p1_unionnum_d", "p1_int", "p1_int_d", "p1_str_s", "p1_bool_b", "p1_float", "p1_optint_none", "p1_literal", "p1_list", "p1_dotted",
              "p2_d_then_plain", "p2_plain_then_d", "p2_both_d", "p1_ret", "p1_ret_d", "p1_kwargs", "p0", "p3_mixed", "p1_code",
              "p1_untyped_d"]
-ARG_SHAPES = ["p1_int", "p1_int_d", "p1_str_s", "p1_bool_b", "p1_float", "p1_optint_none", "p1_optstr_s", "p1_list", "p1_literal",
+ARG_SHAPES = ["p1_optint_d", "p1_optbool_f", "p2_d_then_optd", "p1_int", "p1_int_d", "p1_str_s", "p1_bool_b", "p1_float", "p1_optint_none", "p1_optstr_s", "p1_list", "p1_literal",
               "p2_d_then_plain", "p2_plain_then_d", "p1_kwargs", "p0", "p3_mixed"]
 
 
@@ -379,12 +379,13 @@ def obligations(tier, seed):
             ob = mk_ob("bind", "cls_binding", "class", sid, {"emit_default_doc": dd}, tier, funcs=FUNCS, pl=1)
             ob.body = ob.body.replace("H.cls_binding('class', ", "H.cls_binding(")
             obs.append(ob)
-        if tier != "quick" or sid in ("p1_int_d", "p1_str_s", "p1_code", "p1_untyped_d", "p1_ret_d"):
+        if tier != "quick" or sid in ("p1_int_d", "p1_str_s", "p1_code", "p1_untyped_d", "p1_ret_d", "p1_optint_d", "p1_optbool_f"):
             ob = mk_ob("exec", "exec_cls", "class", sid, {"emit_default_doc": True}, tier, funcs=FUNCS, kind="F", fixed=fixed, str_alpha="STR_T")
             ob.body = ob.body.replace("H.exec_cls('class', ", "H.exec_cls(")
             obs.append(ob)
     for sid in ARG_SHAPES:
-        if tier == "quick" and sid not in ("p1_int_d", "p1_str_s", "p1_literal", "p1_list", "p1_optint_none", "p1_kwargs", "p3_mixed", "p1_bool_b"):
+        if tier == "quick" and sid not in ("p1_int_d", "p1_str_s", "p1_literal", "p1_list", "p1_optint_none", "p1_kwargs", "p3_mixed", "p1_bool_b",
+                                           "p1_optint_d", "p1_optbool_f", "p2_d_then_optd"):
             continue
         ob = mk_ob("exec", "exec_argparse", "argparse", sid, {"emit_default_doc": True}, tier, funcs=FUNCS, kind="F", fixed=fixed, str_alpha="STR_T")
         ob.body = ob.body.replace("H.exec_argparse('argparse', ", "H.exec_argparse(")
